@@ -596,7 +596,13 @@ func runSession(c Case) (*sess, *sink, *source, Session) {
 			}
 		case "response", "mw", "mwerr":
 			rw := &respw{s: s, k: k, hdr: http.Header{}}
-			req := &http.Request{Method: "GET", RequestURI: c.URI, Header: http.Header{}}
+			// a server-side request as net/http builds it: RequestURI as received, URL parsed from it
+			req := &http.Request{Method: "GET", RequestURI: c.URI, Header: http.Header{}, Proto: "HTTP/1.1", ProtoMajor: 1, ProtoMinor: 1, Host: "example.test"}
+			if u, err := url.ParseRequestURI(c.URI); err == nil {
+				req.URL = u
+			} else {
+				req.URL = &url.URL{Path: c.URI}
+			}
 			status := c.Status
 			if status == 0 {
 				status = 200
@@ -861,6 +867,9 @@ func main() {
 		tw.Emit(prof)
 		sub := 1
 		run := func(x Case) {
+			if blockedSeen {
+				return // the remaining positions of this case are not run; the caller resumes with the next case
+			}
 			x.Enum, x.Sum = "", true
 			s, k, src, S := runSession(x)
 			f := summarise(x, s, k, src, S)
